@@ -81,3 +81,20 @@ func VerifH_C13_regexFilter() {
 	vf.Assert(vf.SameBytes(out, want), "output-is-the-selected-groups-in-order")
 	vf.Reach("filtered")
 }
+
+// constructors for the modify harness (filter fields are unexported)
+func VerifNewCutFilter(last bool, count int) FieldFilter {
+	m := cutModeFirst
+	if last {
+		m = cutModeLast
+	}
+	return &CutFilter{mode: m, count: count}
+}
+
+func VerifNewTrimFilter(mode int, cutset string) FieldFilter {
+	return &TrimFilter{mode: trimMode(mode), cutset: cutset}
+}
+
+func VerifNewTrimToFilter(mode int, cutset string) FieldFilter {
+	return &TrimToFilter{mode: trimMode(mode), cutset: []byte(cutset)}
+}
